@@ -11,6 +11,9 @@ package inference
 //      set of controlled triggers of a controller site)
 //  K4  Engine.ObserveUpstream: dependency facts handed over in any order
 
+//verif:use zz_verif_c05l2.go
+//verif:use zz_verif_c06.go
+
 import (
 	"go/token"
 	"go/types"
